@@ -699,8 +699,76 @@ def suite_pings(ctx):
     return res
 
 
+def suite_inline_acks(ctx):
+    """the peer's acknowledgement may arrive while send() for that very packet is still on the stack (a loopback or in-process
+    transport answers synchronously): it counts like any other ack - the send is complete, nothing is retransmitted."""
+    res = CorrResult(suite="acks delivered synchronously from inside the transport's send (impl-level oracle)",
+                     rule="a transport that answers every RELIABLE datagram at once, from inside send_packet, with the peer's ack (as a "
+                          "PacketAck or appended to another packet); 1..3 reliable sends through Circuit.send, then resend ticks past the "
+                          "interval: no entry stays unacked, nothing is retransmitted")
+    n = 0
+    seen = set()
+    with impl() as im:
+        M, B = im.Message, im.Block
+        for form in ("packetack", "appended"):
+            for k in (1, 2, 3):
+                n += 1
+                c = im.new_circuit((W_REAL, T_REAL, E_REAL))
+                sent_rel, resent = [], []
+                orig_send = im.transport.send_packet
+                state = {"busy": False, "pid": 9000}
+
+                def send_packet(packet, _orig=orig_send):
+                    _orig(packet)
+                    try:
+                        m = im.de.deserialize(packet.data)
+                    except Exception:
+                        return
+                    if int(m.send_flags) & int(im.PacketFlags.RESENT):
+                        resent.append(m.packet_id)
+                    if m.reliable and not state["busy"]:
+                        sent_rel.append(m.packet_id)
+                        state["busy"] = True
+                        try:
+                            state["pid"] += 1
+                            if form == "packetack":
+                                a = M("PacketAck", B("Packets", ID=m.packet_id))
+                            else:
+                                a = M("ChatFromSimulator", B("ChatData", fill_missing=True))
+                                a.acks = (m.packet_id,)
+                                a.send_flags |= im.PacketFlags.ACK
+                            a.packet_id = state["pid"]
+                            im.proto.datagram_received(im.ser.serialize(a), ADDR)
+                        finally:
+                            state["busy"] = False
+                im.transport.send_packet = send_packet
+                bad = None
+                try:
+                    for _ in range(k):
+                        c.send(im.out_message(1, 1))
+                    left = [key[1] for key in c.unacked_reliable]
+                    if left:
+                        bad = ("a reliable send completes exactly when an acknowledgement carrying its packet ID arrives - also when it "
+                               "arrives before send() has returned", "inline-ack-not-counted", left)
+                    for _ in range(3):
+                        im.clock.ms += 3000
+                        c.resend_unacked()
+                    if not bad and resent:
+                        bad = ("an acknowledged reliable send is never retransmitted", "inline-ack-then-retransmitted", resent)
+                except Exception as ex:   # noqa
+                    bad = ("no exception escapes send/datagram_received", "inline-ack-raised-" + type(ex).__name__, [])
+                finally:
+                    im.transport.send_packet = orig_send
+                if bad and bad[1] not in seen:
+                    seen.add(bad[1])
+                    res.impl_violations.append({"clause": bad[0], "class": bad[1], "ack_form": form, "sends": k, "ids": bad[2], "kind": "inline-acks"})
+    res.evaluations = n
+    res.distinct_nontrivial = n
+    return res
+
+
 def correspond(ctx):
-    return [_correspond(ctx), suite_pings(ctx)]
+    return [_correspond(ctx), suite_pings(ctx), suite_inline_acks(ctx)]
 
 
 def _correspond(ctx):
@@ -791,6 +859,9 @@ def search(ctx, hints):
 
 
 def replay(ctx, case):
+    if case.get("kind") == "inline-acks":
+        r = suite_inline_acks(ctx)
+        return (True, r.impl_violations[0]) if r.impl_violations else (False, "holds")
     if case.get("kind") == "pings" or "case" not in case:
         r = suite_pings(ctx)
         for v in r.impl_violations:
